@@ -4,7 +4,13 @@ package eio
 
 import (
 	"github.com/karagenc/socket.io-go/engine.io/parser"
+	"github.com/karagenc/socket.io-go/internal/verifhook"
 )
+
+// VerifSetHooks installs the functions called at the verifhook yield points of the whole module (nil, nil removes them).
+func VerifSetHooks(point func(site string), stop func(site string) bool) {
+	verifhook.Set(point, stop)
+}
 
 type verifRecordingTransport struct {
 	name    string
